@@ -492,6 +492,63 @@ def or_scan_covers_array(chk, dirs, rule='or-scan-covers-array', floor=1):
     chk.ok(rule, 'every OR-scan over a local array under %s covers the whole array (%d scans; controls matched)' % (', '.join(dirs), n), dirs[0], nontrivial=False)
 
 
+def _narrow_masks(F):
+    """(ands examined, findings): `x & C` on a 64-bit x with C = 0x00000000FFFFFF..0 (a round-down mask written with a 32-bit
+    type, `~127u`, zero-extended): the upper word of x is cleared as well. Not matched when x is itself a widened 32-bit value."""
+    n, bad = 0, []
+    for i in F.insts.values():
+        if i['op'] != 'and' or i.get('ty') != 'i64':
+            continue
+        a, b = i['ops']
+        if a['k'] == 'c':
+            a, b = b, a
+        if b['k'] != 'c' or a['k'] == 'c':
+            continue
+        n += 1
+        C = b['v'] & 0xFFFFFFFFFFFFFFFF
+        if not (0x80000000 <= C < 0xFFFFFFFF):
+            continue
+        low = (~C) & 0xFFFFFFFF
+        if low & (low + 1) or low >= 4096:          # cleared bits are not a low run 2^k - 1 of block size (bit-field masks of
+            continue                                   # bitsliced code, 0x00000000FFF00000, are written as 64-bit constants and meant)
+        x = a
+        narrow = False
+        while x['k'] == 'i' and F.insts[x['v']]['op'] in ('zext', 'sext', 'bitcast'):
+            src = F.insts[x['v']]
+            if src['op'] == 'zext':
+                narrow = True
+                break
+            x = src['ops'][0]
+        if narrow:
+            continue
+        bad.append((i, C))
+    return n, bad
+
+
+def round_down_mask_keeps_high_word(chk, dirs, rule='round-down-mask-keeps-high-word', floor=1):
+    """a 64-bit byte / bit counter rounded down to a block boundary must keep its upper 32 bits: `count & ~127u` (mask of a 32-bit
+    type) silently clears them, and everything hashed / encrypted beyond 2^32 bytes is mis-counted"""
+    C = _control()
+    if (not _narrow_masks(C.func('lintbad_narrow_mask'))[1] or _narrow_masks(C.func('lintgood_narrow_mask'))[1]
+            or _narrow_masks(C.func('lintgood_narrow_mask2'))[1] or not _narrow_masks(C.func('lintgood_narrow_mask'))[0]):
+        raise AnalysisBroken('lint controls for %s: positive not matched or negative matched' % rule)
+    P = wmw.program()
+    n = 0
+    for (un, fn), F in sorted(P.static.items()):
+        f = F.file().replace(build.REPO + '/', '')
+        if not any(f.startswith(d) for d in dirs):
+            continue
+        k, bad = _narrow_masks(F)
+        n += k
+        for i, c in bad:
+            chk.violation(rule, '%s: 64-bit value masked with a zero-extended 32-bit round-down mask' % fn, F.where(i),
+                          'x & 0x%016x clears bits 32..63 of a 64-bit quantity (mask written with a 32-bit type)' % c, key='%s %s %s' % (rule, fn, i.get('line')))
+    chk.count('64-bit constant masks examined by %s' % rule, n)
+    if n < floor:
+        raise AnalysisBroken('%s: only %d masks under %s (floor %d)' % (rule, n, dirs, floor))
+    chk.ok(rule, 'no 64-bit value under %s is rounded down with a 32-bit mask (%d constant masks; controls matched)' % (', '.join(dirs), n), dirs[0], nontrivial=False)
+
+
 def _ignored_results():
     """{(file, function, callee): number of call sites whose returned value has no use}, and per-callee used counts"""
     import collections
